@@ -23,7 +23,7 @@ void harness_parse_container(void) {
     s->handler = &h; s->error_callback = e_callback;
     s->keyword_callback = (mask & 16) ? s_keyword : NULL; s->dataname_callback = (mask & 32) ? s_dataname : NULL; s->whitespace_callback = (mask & 64) ? s_whitespace : NULL;
     s->user_data = NULL; s->max_frame_depth = nondet_int(); s->line = 1; s->column = 0;
-    s->skip_depth = nondet_int(); __CPROVER_assume(s->skip_depth >= 0 && s->skip_depth < 1000000);
+    s->skip_depth = nondet_int(); __CPROVER_assume(s->skip_depth >= 0 && s->skip_depth < 999995);
     s->tvalue_start = g_tokbuf; s->text_start = g_tokbuf; s->next_char = g_tokbuf; s->tvalue_length = 0; s->ttype = END;
     g_scanner = s; g_store_calls = 0;
     int cobj; int with_target = nondet_int(), is_block = nondet_int() ? 1 : 0;
